@@ -110,6 +110,9 @@ Definition xlt (a b : xv) : bool :=
   | _, _ => false end.
 Definition xge a b := xle b a.
 Definition xgt a b := xlt b a.
+(* Python's builtin min / max on two scalars, argument order kept: min(a, b) = b if b < a else a; max(a, b) = b if b > a else a *)
+Definition pymin (a b : xv) : xv := if xlt b a then b else a.
+Definition pymax (a b : xv) : xv := if xgt b a then b else a.
 Definition xeqv (a b : xv) : bool :=     (* numpy == *)
   match a, b with
   | XFin x, XFin y => Qeq_bool x y | XInf s, XInf t => Bool.eqb s t | _, _ => false end.
